@@ -1,15 +1,20 @@
 #!/bin/sh
-# tools/try_mutant.sh <patch.diff> <Cnn> [tier]  -- apply a patch to /repo, run the check, undo the patch.
+# tools/try_mutant.sh <patch.diff> <Cnn> [tier]
+# Apply a patch to a scratch worktree of /repo (so /repo itself, and any background run using it, is not
+# disturbed), run the check against it through RIG_ROOT, remove the worktree.
+# (Equivalent, as the brief describes it: git -C /repo apply <patch>; ./check Cnn; git -C /repo checkout -- .)
 set -u
 patch=$(readlink -f "$1"); prop=$2; tier=${3:-quick}
-git -C /repo diff --quiet || { echo "/repo is dirty"; exit 3; }
-git -C /repo apply "$patch" || { echo "patch does not apply"; exit 3; }
-VERIF_WALL_LIMIT=${VERIF_WALL_LIMIT:-900} timeout 2400 /verif/check "$prop" --tier "$tier" > /tmp/rigverif-mutant.out 2>&1
+wt=/tmp/wt-mutant-$$
+git -C /repo worktree add --detach $wt HEAD >/dev/null 2>&1 || { echo "cannot create worktree"; exit 3; }
+git -C $wt apply "$patch" || { echo "patch does not apply"; git -C /repo worktree remove --force $wt; exit 3; }
+cp /verif/evidence/"$prop".json /tmp/rigverif-evidence-$$.json 2>/dev/null
+RIG_ROOT=$wt VERIF_WALL_LIMIT=${VERIF_WALL_LIMIT:-900} timeout 2400 /verif/check "$prop" --tier "$tier" > /tmp/rigverif-mutant-$$.out 2>&1
 rc=$?
-git -C /repo checkout -- .
-grep -E "VIOLATION|KNOWN-FINDING|MACHINERY|OK|FAIL" /tmp/rigverif-mutant.out | head -8
-rm -f /tmp/rigverif-mutant.out
+git -C /repo worktree remove --force $wt
+grep -E "VIOLATION|KNOWN-FINDING|MACHINERY|OK|FAIL" /tmp/rigverif-mutant-$$.out | head -8
+rm -f /tmp/rigverif-mutant-$$.out
 # evidence written by a mutant run is not evidence of the real tree
-git -C /verif checkout -- evidence/"$prop".json 2>/dev/null
+cp /tmp/rigverif-evidence-$$.json /verif/evidence/"$prop".json 2>/dev/null; rm -f /tmp/rigverif-evidence-$$.json
 echo "exit=$rc"
 exit $rc
